@@ -75,6 +75,35 @@ func isFieldValue(v ssa.Value, name string) bool {
 	return false
 }
 
+// returnsNil: the first result of ret is nil — a nil constant, or a named result that nothing was stored in on the way
+// to this return (a bare `return` of a function with named results and a deferred call reads the result variable).
+func returnsNil(ret *ssa.Return) bool {
+	v := an.RetVal(ret, 0)
+	if an.IsNilConst(v) {
+		return true
+	}
+	ld, ok := v.(*ssa.UnOp)
+	if !ok || ld.Op != token.MUL {
+		return false
+	}
+	a, isA := ld.X.(*ssa.Alloc)
+	if !isA || a.Referrers() == nil {
+		return false
+	}
+	for _, ref := range *a.Referrers() {
+		if st, isSt := ref.(*ssa.Store); isSt && st.Addr == ssa.Value(a) {
+			if an.IsNilConst(st.Val) {
+				continue
+			}
+			// a store that can reach this return
+			if st.Block() == ret.Block() || blockReaches(st.Block(), ret.Block()) {
+				return false
+			}
+		}
+	}
+	return true
+}
+
 // c01QueueDrainedBeforeNil: the partition's sender stops when Get answers nil. Close closes the queue after handing it
 // the open batch, and batches may be waiting behind a request in flight: nil may be answered only for an empty queue,
 // never for a closed one that still holds batches (they would be neither produced nor completed).
@@ -88,8 +117,8 @@ func c01QueueDrainedBeforeNil(p *load.Program, r *oblig.Report, rule string) {
 	var bad []string
 	an.EachInstr(fn, func(ins ssa.Instruction) {
 		ret, ok := ins.(*ssa.Return)
-		if !ok || ret.Parent() != fn || !an.IsNilConst(an.RetVal(ret, 0)) {
-			return
+		if !ok || ret.Parent() != fn || ret.Block() == fn.Recover || !returnsNil(ret) {
+			return // (the recover block of a function with a deferred call is not a path of its own)
 		}
 		n++
 		okG := false
